@@ -214,7 +214,7 @@ def harnesses(tier: str) -> List[H]:
     for shape in ("afunc", "amethod"):
         for ncalls in (2, 3):
             if tier == "quick":
-                nsched = 7 if ncalls == 2 else 5
+                nsched = 7 if ncalls == 2 else 4
             else:
                 nsched = 9
             for mode in range(3):
